@@ -39,6 +39,7 @@ LIB_EXPORTS = [
     [(".default.port", "int"), (".default.tags", "other")],
     [(".derived.port", "int"), (".derived.host", "str"), (".base.host", "str"), (".base.conf.port", "int"), (".base.port", "int")],
     [(".total", "int"), (".items", "other")],
+    [(".both.h", "str"), (".both.p", "int"), (".u.base.host", "str"), (".b.port", "int")],
 ]
 LIB_TEXTS = [
     'let x = 1;\nlet name = "lib";\nlet mk = func (a) => {v = a};\n',
@@ -46,6 +47,7 @@ LIB_TEXTS = [
     '// shared shapes\nconstraint port_range = in 1..65535;\nlet default = {port :: port_range = 80, tags = ["a", "b"]};\n',
     'let base = import "./base.ucg";\nlet derived = base.conf{port = 9090};\n',
     'let items = [1, 2, 3];\nlet total = reduce(func (acc, item) => acc + item, 0, items);\nlet m = module {n = 1} => (r) { let r = mod.n + 1; };\n',
+    'let b = import "./base.ucg";\nlet u = import "./util.ucg";\nlet both = {h = b.host, p = u.derived.port};\n',
 ]
 
 
@@ -62,11 +64,14 @@ def generate(rng, tier, idx):
     nested = rng.chance(40)
     # ---- workspace on disk -----------------------------------------------------------------
     ws = []
-    nlibs = rng.between(0, 4)
-    lib_names = ["base.ucg", "shapes.ucg", "util.ucg", "more.ucg"]
+    nlibs = rng.between(0, 5)
+    lib_names = ["base.ucg", "shapes.ucg", "util.ucg", "more.ucg", "app.ucg"]
     for i in range(nlibs):
         d = "libs/" if (nested and rng.chance(50)) else ""
-        fixed = (i + 1) % len(LIB_TEXTS) if (i == 0 or rng.chance(75)) else None
+        fixed = (i + 1) % 5 if (i == 0 or rng.chance(75)) else None
+        if i == 4:
+            # the diamond's root: imports the leaf (base.ucg) and the intermediate file (util.ucg, which imports base.ucg itself)
+            fixed = 5 if ws[2].get("fixed") == 3 and not ws[2]["path"].startswith("libs/") else None
         text = LIB_TEXTS[fixed] if fixed is not None else gen_ucg.gen_program(rng, (), True)
         if i == 0:
             d = ""
@@ -102,6 +107,7 @@ def generate(rng, tier, idx):
     state = {}   # doc index -> current buffer text (only while open)
     last_text = {}  # doc index -> last text the client sent (for position sampling on closed docs)
     lib_open = set()
+    hot = {}        # doc index -> character offsets of the most recent mutation in its current text
     fav_req = rng.sample(REQS, rng.between(1, 4))
     if mode["strict"] and ws and rng.chance(25):
         # an editor restoring its tabs: workspace libraries are opened with exactly their on-disk text, in some order, and some are closed
@@ -172,6 +178,7 @@ def generate(rng, tier, idx):
                 session.append({"m": "open", "doc": i, "text": text, "cls": cls, "dup": i in state})
                 state[i] = text
                 last_text[i] = text
+                hot[i] = list(gen_ucg.LAST_MUTATION_SPOTS) if cls.startswith("mutated") else []
                 continue
         if k == "change":
             i = rng.choice(opened)
@@ -179,6 +186,7 @@ def generate(rng, tier, idx):
                 cls, text = "mutated_current", gen_ucg.mutate(rng, state[i])
             else:
                 cls, text = gen_ucg.gen_text(rng, imports_for(docs[i]), True, exports_for(docs[i]))
+            hot[i] = list(gen_ucg.LAST_MUTATION_SPOTS) if cls.startswith("mutated") else []
             texts = [text]
             if mode["protocol"] and rng.chance(12):
                 texts = []
@@ -226,7 +234,7 @@ def generate(rng, tier, idx):
                 session.append({"m": "semtok", "doc": i})
             else:
                 text = state.get(i, last_text.get(i, docs[i].get("disk_text") or ""))
-                pc, line, ch = gen_ucg.sample_position(rng, text)
+                pc, line, ch = gen_ucg.sample_position(rng, text, hot.get(i) if i in state else None)
                 session.append({"m": kind, "doc": i, "line": line, "ch": ch, "pc": pc})
             continue
         if k == "disk":
@@ -261,7 +269,7 @@ def generate(rng, tier, idx):
         for i in sorted(state):
             for _ in range(rng.between(1, 4)):
                 kind = rng.choice(["hover", "definition", "completion", "hover", "definition"])
-                pc, line, ch = gen_ucg.sample_position(rng, state[i])
+                pc, line, ch = gen_ucg.sample_position(rng, state[i], hot.get(i))
                 final_probes.append({"doc": i, "m": kind, "line": line, "ch": ch, "pc": pc})
             final_probes.append({"doc": i, "m": "semtok"})
     return {"workspace": ws, "docs": docs, "mode": mode, "session": session, "nested": nested, "root_uri": not (mode["protocol"] and rng.chance(10)),
